@@ -46,15 +46,26 @@ for p in sorted(glob.glob(f'/verif/variants/{pid}/*.patch')):
     jobs.append(('variant', os.path.basename(p)[:-6], p))
 for p in sorted(glob.glob(f'/verif/seeded/{pid}-[mn]*/patch.diff')):
     jobs.append(('seeded', os.path.basename(os.path.dirname(p)), p))
-for p in sorted(glob.glob('/verif/variants/benign/*.patch')):
+for p in sorted(glob.glob('/verif/variants/benign/*.patch')) + sorted(glob.glob('/verif/variants/refactor/*.patch')):
     jobs.append(('benign', os.path.basename(p)[:-6], p))
+# refactorings into idioms no rule recognises (documented in DESIGN.md section 8): reported separately
+known_undecided = {}
+try:
+    for line in open('/verif/variants/refactor/KNOWN_UNDECIDED.txt'):
+        line = line.split('#')[0].strip()
+        if line:
+            n, props = line.split(':')
+            known_undecided[n.strip()] = [x.strip() for x in props.split(',')]
+except FileNotFoundError:
+    pass
 res = []
 with concurrent.futures.ThreadPoolExecutor(max_workers=int(os.environ.get('SELFTEST_JOBS', '6'))) as ex:
     for r in ex.map(run_one, jobs):
         res.append(r)
 shutil.rmtree(base, ignore_errors=True)
 breaking = [r for r in res if r[0] in ('variant', 'seeded')]
-benign = [r for r in res if r[0] == 'benign']
+benign = [r for r in res if r[0] == 'benign' and not (r[2] == 'fired' and pid in known_undecided.get(r[1], []))]
+documented = [r for r in res if r[0] == 'benign' and r[2] == 'fired' and pid in known_undecided.get(r[1], [])]
 st = {
     'breaking_total': len(breaking),
     'breaking_fired': sum(1 for r in breaking if r[2] == 'fired'),
@@ -65,6 +76,7 @@ st = {
     'benign_false_alarms': [r[1] + ':' + r[3] for r in benign if r[2] == 'fired'],
     'benign_skipped': [r[1] for r in benign if r[2] in ('skipped', 'error', 'machinery')],
     'fired_rules': {r[1]: r[3] for r in breaking if r[2] == 'fired'},
+    'benign_documented_undecided': [r[1] + ':' + r[3] for r in documented],
 }
 print(f"SELFTEST {pid}: breaking {st['breaking_fired']}/{st['breaking_total']} reported (missed {st['breaking_missed']}, skipped {len(st['breaking_skipped'])}); benign {st['benign_silent']}/{st['benign_total']} silent (false alarms {st['benign_false_alarms']})")
 ev = os.path.join(root, 'evidence', pid + '.json')
